@@ -29,6 +29,10 @@
                                both faces of the edge): masked on travel (fixes/C09-3) the subset reports what it
                                derives itself, for every history — under the decidable hypothesis `EFDTransport`;
                                the as-is slicer is history dependent.
+  * `slice_backing_irrelevant`, `efd_backing_irrelevant`, `coh_backing`
+                             — `Grid.chunk` (numpy → dask backing) is a history operation that changes no value:
+                               every history theorem quantifies over histories containing it, and a source
+                               differing only in its backing gives the same subset.
   * `efd_transport`, `efdTransport_of_pre`, `efd_history_independent_of_pre`
                              — `EFDTransport` PROVED from C03's `EdgeFaceOK` of the source's and the subset's
                                edge-face tables + "the two faces of an edge are distinct" (`mem_faceEdgesOf_sub`:
@@ -1014,7 +1018,13 @@ theorem getEFD_coh {B : Base} {g : State} (h : Coh B g) :
     exact ⟨_, rfl, { w := c1.w, t := c1.t, en := c1.en, fe := c1.fe, npf := c1.npf, nf := c1.nf,
                      ef := c1.ef, ff := c1.ff, holes := c1.holes, ready := c1.ready }⟩
 
-/-- no request on a coherent grid raises, and coherence is kept -/
+/-- coherence does not mention how the arrays are stored -/
+theorem coh_backing {B : Base} {g : State} (h : Coh B g) (b : Backing) : Coh B { g with backing := b } :=
+  { w := h.w, t := h.t, en := h.en, fe := h.fe, npf := h.npf, nf := h.nf, ef := h.ef, ff := h.ff,
+    holes := h.holes, ready := h.ready }
+
+/-- no request on a coherent grid raises, and coherence is kept (`Grid.chunk` is one of the requests:
+    it changes the backing of the arrays and no value) -/
 theorem request_coh {B : Base} {g : State} (h : Coh B g) (v : Var) :
     ∃ g', request g v = some g' ∧ Coh B g' := by
   cases v with
@@ -1026,6 +1036,7 @@ theorem request_coh {B : Base} {g : State} (h : Coh B g) (v : Var) :
   | faceFace => obtain ⟨g', h1, h2, _⟩ := getFF_coh h; exact ⟨g', h1, h2⟩
   | holes => obtain ⟨g', h1, h2, _⟩ := getHoles_coh h; exact ⟨g', h1, h2⟩
   | edgeFaceDist => exact getEFD_coh h
+  | chunk => exact ⟨_, rfl, coh_backing h .dask⟩
 
 theorem runHist_coh {B : Base} {g : State} (h : Coh B g) (hist : List Var) :
     ∃ g', runHist g hist = some g' ∧ Coh B g' := by
@@ -1667,6 +1678,7 @@ theorem request_efd {B : Base} {g g' : State} (h : Coh B g) (he : EfdOK B g) (v 
       have : request g .edgeFaceDist = getEFD g := rfl
       rw [this, h2] at hr; exact (Option.some.inj hr).symm
     rw [this, e2]; exact Or.inr rfl
+  | chunk => rw [← Option.some.inj hr]; exact he
 
 theorem runHist_efd {B : Base} {g : State} (h : Coh B g) (he : EfdOK B g) (hist : List Var) :
     ∃ g', runHist g hist = some g' ∧ Coh B g' ∧ EfdOK B g' := by
@@ -1992,6 +2004,25 @@ theorem efd_history_independent_of_pre {n n' w : Nat} {B : Base} {g : State} (hc
       = some (B.slice idx).EFD :=
   efd_history_independent hc he h.2.2.1 (efdTransport_of_pre B idx h hP hP' hD hD') hist order
 
+/-! ## 7h. the backing of the source's arrays (numpy / dask after `Grid.chunk`) is not an input -/
+
+/-- **backing**: `Grid.chunk(...)` is a history operation (`Var.chunk`, allowed at ANY position of the
+    histories quantified over in `slice_history_independent`, `built_grid_end_to_end`,
+    `efd_history_independent`), and a source that differs only in its backing gives the same subset tables -/
+theorem slice_backing_irrelevant {B : Base} {g : State} (h : Coh B g) {idx : List Nat}
+    (hidx : ∀ f ∈ idx, f < B.t.length) (b : Backing) (hist order : List Var) :
+    ((runHist { g with backing := b } hist).bind (fun g => g.slice idx)).bind (fun u => u.view order)
+      = ((runHist g hist).bind (fun g => g.slice idx)).bind (fun u => u.view order) := by
+  rw [slice_history_independent (coh_backing h b) hidx, slice_history_independent h hidx]
+
+/-- … and the same `edge_face_distances` -/
+theorem efd_backing_irrelevant {B : Base} {g : State} (h : Coh B g) (he : EfdOK B g) {idx : List Nat}
+    (hidx : ∀ f ∈ idx, f < B.t.length) (hT : EFDTransport B idx) (b : Backing) (hist order : List Var) :
+    ((runHist { g with backing := b } hist).bind (fun g => g.slice idx)).bind (fun u => u.viewEFD order)
+      = ((runHist g hist).bind (fun g => g.slice idx)).bind (fun u => u.viewEFD order) := by
+  have he' : EfdOK B { g with backing := b } := he
+  rw [efd_history_independent (coh_backing h b) he' hidx hT, efd_history_independent h he hidx hT]
+
 /-! ## 8. /repo before the repair: proved counterexamples, and non-vacuity -/
 
 /-- two triangles sharing the edge (1,2) -/
@@ -2097,5 +2128,10 @@ example : EFDTransport { w := 4, t := [[0, 1, 5, 4], [1, 2, 6, 5], [2, 3, 7, 6]]
                          EN := edges [[0, 1, 5, 4], [1, 2, 6, 5], [2, 3, 7, 6]],
                          FE := faceEdges [[0, 1, 5, 4], [1, 2, 6, 5], [2, 3, 7, 6]] } [2, 1] :=
   efdTransport_of_pre (n := 8) (n' := 6) (w := 4) _ _ (by decide) (by decide) (by decide) (by decide) (by decide)
+
+/-- chunking the source between materialising `edge_face_distances` and slicing changes nothing (the
+    seeded in-place write on a dask-backed copy breaks exactly this) -/
+example : ((runHist g2 [.edgeFaceDist, .chunk, .faceFace]).bind (fun g => g.slice [1])).bind (fun u => u.viewEFD [.chunk])
+    = some [none, none, none] := by decide
 
 end UxVerif.C09
